@@ -26,7 +26,7 @@ var errInjected = errors.New("c11: injected transport error")
 
 const (
 	quiesce = 2 * time.Second  // the statement's "ends once the executing requests return": polled this long
-	hangT   = 10 * time.Second // harness prologue deadlines
+	hangT   = 30 * time.Second // harness prologue deadlines
 	// schedule-only waits (never part of a verdict)
 	closeWait   = 5 * time.Millisecond
 	lateTimeout = 3 * time.Millisecond
@@ -103,6 +103,9 @@ func (b *bystander) probeScript(when string) error {
 	for _, fid := range []uint32{20, 21, 22, 23} {
 		m := &ref9p.Msg{Type: ref9p.Tstat, Fid: fid}
 		r, err := b.C.RPC(m)
+		if err == rawc.ErrTimeout {
+			return &hangError{fmt.Sprintf("bystander not answered within %v (%s the victim's disconnect): Tstat fid %d", hangT, when, fid)}
+		}
 		if err != nil {
 			return fmt.Errorf("bystander disturbed (%s the victim's disconnect): Tstat fid %d: %v", when, fid, err)
 		}
@@ -123,6 +126,9 @@ func (b *bystander) probeScript(when string) error {
 	b.seq++
 	m := &ref9p.Msg{Type: ref9p.Tread, Fid: 21, Offset: uint64(b.seq) << 12, Count: 64}
 	r, err := b.C.RPC(m)
+	if err == rawc.ErrTimeout {
+		return &hangError{fmt.Sprintf("bystander not answered within %v (%s the victim's disconnect): Tread fid 21", hangT, when)}
+	}
 	if err != nil {
 		return fmt.Errorf("bystander disturbed (%s): Tread on its open fid 21: %v", when, err)
 	}
@@ -503,7 +509,16 @@ func runScript(c *Case, res *result) (err error) {
 	var left []gor
 	var why string
 	nstuck := 0
-	okq := waitFor(quiesce, func() bool {
+	newGors := func() []gor {
+		var out []gor
+		for id, g := range libGors() {
+			if _, old := g1[id]; !old {
+				out = append(out, g)
+			}
+		}
+		return out
+	}
+	okq := settle(func() bool {
 		why = ""
 		if k.count(connWho(vid), "close.exit") == 0 {
 			why = "Conn.close has not finished"
@@ -551,7 +566,7 @@ func runScript(c *Case, res *result) (err error) {
 		}
 		why = "goroutines still serve the connection"
 		return false
-	})
+	}, newGors)
 	// goroutines that remain and are tolerated (listed finding) must be excluded below
 	allowed := map[int]gor{}
 	for id, g := range g0 {
@@ -654,12 +669,20 @@ func runScript(c *Case, res *result) (err error) {
 	// ---- finally the bystander disconnects (no request executing)
 	by.C.Close()
 	var leftBy []string
-	okb := waitFor(quiesce, func() bool {
+	okb := settle(func() bool {
 		if k.count(connWho(by.id), "close.exit") == 0 {
 			return false
 		}
 		leftBy = shorts(libGors(), allowed)
 		return len(leftBy) == 0
+	}, func() []gor {
+		var out []gor
+		for id, g := range libGors() {
+			if _, old := allowed[id]; !old {
+				out = append(out, g)
+			}
+		}
+		return out
 	})
 	if !okb {
 		return fmt.Errorf("%v after the bystander's own disconnect: goroutines left: %s", quiesce, strings.Join(leftBy, " | "))
